@@ -33,6 +33,7 @@ deriving Repr
 
 def J.isArr : J → Bool | .arr _ => true | _ => false
 def J.isObj : J → Bool | .obj _ => true | _ => false
+def J.isNull : J → Bool | .null => true | _ => false
 
 /-- Python truthiness of a loaded JSON value -/
 def J.truthy : J → Bool
@@ -73,7 +74,8 @@ def findVar (vars : List XmlVar) (key : Str) (value : J) : Option XmlVar :=
   vars.findSome? fun var =>
     let varIsList := var.listElement || var.tokens
     if var.localName = key then
-      (if value.isArr = varIsList then some var else none)
+      -- `if value is None or is_array == var_is_list` (a null matches a list field too, c9c980c)
+      (if value.isNull || value.isArr = varIsList then some var else none)
     else if wrapperName var = some key then
       match value with
       | .obj kvs =>
@@ -210,6 +212,8 @@ def bindDataclass (e : BEnv) (Γ : Ctx) (cfg : ParserConfig) : Nat → J → Cla
                       | none => throw (.leaked "KeyError"))
                    | _ => throw (.leaked "TypeError"))
                 else pure kv.2
+              -- `if value is None and var.list_element: continue` (the field keeps its default)
+              if value.isNull && var.listElement then pure params else
               let v ← bindValue e Γ cfg fuel m var value false
               if var.init then pure (params.set var.name v)
               else do validateFixed e.py var.toVarCore v; pure params) []
